@@ -19,6 +19,8 @@ CHECKS = {
          "§5 C08", "Lean 4 proof (induction on string data / request list) + hand model of the editors tied by differential correspondence"),
  "C09": ("proof about the allocator shared by the four slot tables, for every occupancy, batch and iteration order: slots handed out are in range, were empty, pairwise distinct, never the reserved Anywhere slot for index-less objects; carried free indices are kept; a call needing no new slot never fails; exhaustion and out-of-range indices fail loudly; WAV paths are requested once; configuration (ranges, reserved id, raise/skip) regenerated from the source and proved equal to the format's",
          "§5 C09", "Lean 4 proof (state-machine invariant by induction over the request list) + ast translator of allocator configuration + differential correspondence with observed set order"),
+ "C13": ("proof over an alias model: every function body of the operation layers (948 read, 56 containing an in-place mutation) is abstracted by the translator into a small heap IR (allocate / shallow copy / alias / element / mutate) regenerated on every run; the kernel evaluates a type check on every body (decide +kernel) and a soundness theorem, proved once for all programs and all heaps, says that a body passing the check changes no container cell that existed before the call, along every execution order; partial: the reading of Python into the IR is trusted (rules listed in DESIGN.md) and is tied by a deep-snapshot harness over every public method of the editor / io / transcoder layers, alone and in composed sequences",
+         "§5 C13", "Lean 4 proof (soundness of a flow-insensitive alias type system, by invariant over executions) + ast translator of mutation/alias structure + deep-snapshot differential run"),
  "C14": ("proof that the allocator's outcome is invariant under permutation of the batch (List.Perm): both fail or both succeed, same free list, same occupied set, same set of new slots; whole-save determinism modulo new-slot numbering is validated across interpreters with different hash seeds through an independent slot-renumbering-invariant digest (partial: the rewrite of references and string collection order are checked by that run, not proved)",
          "§5 C14", "Lean 4 proof (permutation invariance via an order-free characterisation) + cross-process differential run"),
  "C02": ("partial proof: for all inputs, every string reference (any id: shared, not-last, out of range, 0) is written back with an id resolving to the same text; sections keep their positions; flag words keep their defined bits and hit points are exact (C12); the whole-cycle preservation statement is kept visible (C02Full) but not proved and is false on the current tree for the recorded findings; the executable cycle model is byte-compared with the real code on every generated map and the game view is compared by an independent specification-driven reader",
